@@ -5,6 +5,7 @@ package hashprefix
 // C19 — safe-browsing / parental lookups reveal only hash prefixes; the cache
 // never changes the verdict.
 //
+//vx:native
 //vx:overlay internal/filtering/hashprefix/zz_vx_c19.go
 //vx:entry vxC19Names reach=blocked,clean,nothing-to-ask,icann-cut,private-full,truncated
 //vx:entry vxC19Verdict reach=blocked,clean,prefix-collision,malformed-skipped
